@@ -14,86 +14,92 @@ func pt() { vsched.Yield("atomic") }
 // Int32 wraps atomic.Int32.
 type Int32 struct{ v atomic.Int32 }
 
-func (x *Int32) Load() int32             { pt(); return x.v.Load() }
-func (x *Int32) Store(v int32)           { pt(); x.v.Store(v) }
-func (x *Int32) Add(d int32) int32       { pt(); return x.v.Add(d) }
-func (x *Int32) Swap(v int32) int32      { pt(); return x.v.Swap(v) }
+func (x *Int32) Load() int32                    { pt(); return x.v.Load() }
+func (x *Int32) Store(v int32)                  { pt(); x.v.Store(v) }
+func (x *Int32) Add(d int32) int32              { pt(); return x.v.Add(d) }
+func (x *Int32) Swap(v int32) int32             { pt(); return x.v.Swap(v) }
 func (x *Int32) CompareAndSwap(o, n int32) bool { pt(); return x.v.CompareAndSwap(o, n) }
 
 // Int64 wraps atomic.Int64.
 type Int64 struct{ v atomic.Int64 }
 
-func (x *Int64) Load() int64             { pt(); return x.v.Load() }
-func (x *Int64) Store(v int64)           { pt(); x.v.Store(v) }
-func (x *Int64) Add(d int64) int64       { pt(); return x.v.Add(d) }
-func (x *Int64) Swap(v int64) int64      { pt(); return x.v.Swap(v) }
+func (x *Int64) Load() int64                    { pt(); return x.v.Load() }
+func (x *Int64) Store(v int64)                  { pt(); x.v.Store(v) }
+func (x *Int64) Add(d int64) int64              { pt(); return x.v.Add(d) }
+func (x *Int64) Swap(v int64) int64             { pt(); return x.v.Swap(v) }
 func (x *Int64) CompareAndSwap(o, n int64) bool { pt(); return x.v.CompareAndSwap(o, n) }
 
 // Uint32 wraps atomic.Uint32.
 type Uint32 struct{ v atomic.Uint32 }
 
-func (x *Uint32) Load() uint32            { pt(); return x.v.Load() }
-func (x *Uint32) Store(v uint32)          { pt(); x.v.Store(v) }
-func (x *Uint32) Add(d uint32) uint32     { pt(); return x.v.Add(d) }
-func (x *Uint32) Swap(v uint32) uint32    { pt(); return x.v.Swap(v) }
+func (x *Uint32) Load() uint32                    { pt(); return x.v.Load() }
+func (x *Uint32) Store(v uint32)                  { pt(); x.v.Store(v) }
+func (x *Uint32) Add(d uint32) uint32             { pt(); return x.v.Add(d) }
+func (x *Uint32) Swap(v uint32) uint32            { pt(); return x.v.Swap(v) }
 func (x *Uint32) CompareAndSwap(o, n uint32) bool { pt(); return x.v.CompareAndSwap(o, n) }
 
 // Uint64 wraps atomic.Uint64.
 type Uint64 struct{ v atomic.Uint64 }
 
-func (x *Uint64) Load() uint64            { pt(); return x.v.Load() }
-func (x *Uint64) Store(v uint64)          { pt(); x.v.Store(v) }
-func (x *Uint64) Add(d uint64) uint64     { pt(); return x.v.Add(d) }
-func (x *Uint64) Swap(v uint64) uint64    { pt(); return x.v.Swap(v) }
+func (x *Uint64) Load() uint64                    { pt(); return x.v.Load() }
+func (x *Uint64) Store(v uint64)                  { pt(); x.v.Store(v) }
+func (x *Uint64) Add(d uint64) uint64             { pt(); return x.v.Add(d) }
+func (x *Uint64) Swap(v uint64) uint64            { pt(); return x.v.Swap(v) }
 func (x *Uint64) CompareAndSwap(o, n uint64) bool { pt(); return x.v.CompareAndSwap(o, n) }
 
 // Uintptr wraps atomic.Uintptr.
 type Uintptr struct{ v atomic.Uintptr }
 
-func (x *Uintptr) Load() uintptr           { pt(); return x.v.Load() }
-func (x *Uintptr) Store(v uintptr)         { pt(); x.v.Store(v) }
-func (x *Uintptr) Add(d uintptr) uintptr   { pt(); return x.v.Add(d) }
-func (x *Uintptr) Swap(v uintptr) uintptr  { pt(); return x.v.Swap(v) }
+func (x *Uintptr) Load() uintptr                    { pt(); return x.v.Load() }
+func (x *Uintptr) Store(v uintptr)                  { pt(); x.v.Store(v) }
+func (x *Uintptr) Add(d uintptr) uintptr            { pt(); return x.v.Add(d) }
+func (x *Uintptr) Swap(v uintptr) uintptr           { pt(); return x.v.Swap(v) }
 func (x *Uintptr) CompareAndSwap(o, n uintptr) bool { pt(); return x.v.CompareAndSwap(o, n) }
 
 // Bool wraps atomic.Bool.
 type Bool struct{ v atomic.Bool }
 
-func (x *Bool) Load() bool             { pt(); return x.v.Load() }
-func (x *Bool) Store(v bool)           { pt(); x.v.Store(v) }
-func (x *Bool) Swap(v bool) bool       { pt(); return x.v.Swap(v) }
+func (x *Bool) Load() bool                    { pt(); return x.v.Load() }
+func (x *Bool) Store(v bool)                  { pt(); x.v.Store(v) }
+func (x *Bool) Swap(v bool) bool              { pt(); return x.v.Swap(v) }
 func (x *Bool) CompareAndSwap(o, n bool) bool { pt(); return x.v.CompareAndSwap(o, n) }
 
 // Pointer wraps atomic.Pointer.
 type Pointer[T any] struct{ v atomic.Pointer[T] }
 
-func (x *Pointer[T]) Load() *T            { pt(); return x.v.Load() }
-func (x *Pointer[T]) Store(v *T)          { pt(); x.v.Store(v) }
-func (x *Pointer[T]) Swap(v *T) *T        { pt(); return x.v.Swap(v) }
+func (x *Pointer[T]) Load() *T                    { pt(); return x.v.Load() }
+func (x *Pointer[T]) Store(v *T)                  { pt(); x.v.Store(v) }
+func (x *Pointer[T]) Swap(v *T) *T                { pt(); return x.v.Swap(v) }
 func (x *Pointer[T]) CompareAndSwap(o, n *T) bool { pt(); return x.v.CompareAndSwap(o, n) }
 
 // Value wraps atomic.Value.
 type Value struct{ v atomic.Value }
 
-func (x *Value) Load() any               { pt(); return x.v.Load() }
-func (x *Value) Store(v any)             { pt(); x.v.Store(v) }
-func (x *Value) Swap(v any) any          { pt(); return x.v.Swap(v) }
+func (x *Value) Load() any                    { pt(); return x.v.Load() }
+func (x *Value) Store(v any)                  { pt(); x.v.Store(v) }
+func (x *Value) Swap(v any) any               { pt(); return x.v.Swap(v) }
 func (x *Value) CompareAndSwap(o, n any) bool { pt(); return x.v.CompareAndSwap(o, n) }
 
 // Function forms.
-func AddInt32(p *int32, d int32) int32     { pt(); return atomic.AddInt32(p, d) }
-func AddInt64(p *int64, d int64) int64     { pt(); return atomic.AddInt64(p, d) }
-func AddUint32(p *uint32, d uint32) uint32 { pt(); return atomic.AddUint32(p, d) }
-func AddUint64(p *uint64, d uint64) uint64 { pt(); return atomic.AddUint64(p, d) }
-func LoadInt32(p *int32) int32             { pt(); return atomic.LoadInt32(p) }
-func LoadInt64(p *int64) int64             { pt(); return atomic.LoadInt64(p) }
-func LoadUint32(p *uint32) uint32          { pt(); return atomic.LoadUint32(p) }
-func LoadUint64(p *uint64) uint64          { pt(); return atomic.LoadUint64(p) }
-func StoreInt32(p *int32, v int32)         { pt(); atomic.StoreInt32(p, v) }
-func StoreInt64(p *int64, v int64)         { pt(); atomic.StoreInt64(p, v) }
-func StoreUint32(p *uint32, v uint32)      { pt(); atomic.StoreUint32(p, v) }
-func StoreUint64(p *uint64, v uint64)      { pt(); atomic.StoreUint64(p, v) }
-func CompareAndSwapInt32(p *int32, o, n int32) bool    { pt(); return atomic.CompareAndSwapInt32(p, o, n) }
-func CompareAndSwapInt64(p *int64, o, n int64) bool    { pt(); return atomic.CompareAndSwapInt64(p, o, n) }
-func CompareAndSwapUint32(p *uint32, o, n uint32) bool { pt(); return atomic.CompareAndSwapUint32(p, o, n) }
-func CompareAndSwapUint64(p *uint64, o, n uint64) bool { pt(); return atomic.CompareAndSwapUint64(p, o, n) }
+func AddInt32(p *int32, d int32) int32              { pt(); return atomic.AddInt32(p, d) }
+func AddInt64(p *int64, d int64) int64              { pt(); return atomic.AddInt64(p, d) }
+func AddUint32(p *uint32, d uint32) uint32          { pt(); return atomic.AddUint32(p, d) }
+func AddUint64(p *uint64, d uint64) uint64          { pt(); return atomic.AddUint64(p, d) }
+func LoadInt32(p *int32) int32                      { pt(); return atomic.LoadInt32(p) }
+func LoadInt64(p *int64) int64                      { pt(); return atomic.LoadInt64(p) }
+func LoadUint32(p *uint32) uint32                   { pt(); return atomic.LoadUint32(p) }
+func LoadUint64(p *uint64) uint64                   { pt(); return atomic.LoadUint64(p) }
+func StoreInt32(p *int32, v int32)                  { pt(); atomic.StoreInt32(p, v) }
+func StoreInt64(p *int64, v int64)                  { pt(); atomic.StoreInt64(p, v) }
+func StoreUint32(p *uint32, v uint32)               { pt(); atomic.StoreUint32(p, v) }
+func StoreUint64(p *uint64, v uint64)               { pt(); atomic.StoreUint64(p, v) }
+func CompareAndSwapInt32(p *int32, o, n int32) bool { pt(); return atomic.CompareAndSwapInt32(p, o, n) }
+func CompareAndSwapInt64(p *int64, o, n int64) bool { pt(); return atomic.CompareAndSwapInt64(p, o, n) }
+func CompareAndSwapUint32(p *uint32, o, n uint32) bool {
+	pt()
+	return atomic.CompareAndSwapUint32(p, o, n)
+}
+func CompareAndSwapUint64(p *uint64, o, n uint64) bool {
+	pt()
+	return atomic.CompareAndSwapUint64(p, o, n)
+}
